@@ -4,6 +4,7 @@ import (
 	"context"
 	"errors"
 	"fmt"
+	"io"
 	"net"
 	"strings"
 	"syscall"
@@ -380,3 +381,48 @@ func LookupIP(host string) ([]net.IP, error) {
 func LookupHost(host string) ([]string, error) {
 	return DefaultResolver.LookupHost(context.Background(), host)
 }
+
+// ReadFrom and WriteTo complete *net.TCPConn's method set (io.Copy picks them up).
+func (c *TCPConn) ReadFrom(r io.Reader) (int64, error) {
+	buf := make([]byte, 32*1024)
+	var total int64
+	for {
+		n, err := r.Read(buf)
+		if n > 0 {
+			w, werr := c.Write(buf[:n])
+			total += int64(w)
+			if werr != nil {
+				return total, werr
+			}
+		}
+		if err == io.EOF {
+			return total, nil
+		}
+		if err != nil {
+			return total, err
+		}
+	}
+}
+
+func (c *TCPConn) WriteTo(w io.Writer) (int64, error) {
+	buf := make([]byte, 32*1024)
+	var total int64
+	for {
+		n, err := c.Read(buf)
+		if n > 0 {
+			m, werr := w.Write(buf[:n])
+			total += int64(m)
+			if werr != nil {
+				return total, werr
+			}
+		}
+		if err == io.EOF {
+			return total, nil
+		}
+		if err != nil {
+			return total, err
+		}
+	}
+}
+
+func (c *TCPConn) SetKeepAliveConfig(net.KeepAliveConfig) error { return nil }
